@@ -85,7 +85,7 @@ def _deliver(enc, cb):
 
 
 def _setup(case):
-    S.CTX.scenario = {"script": [[] for _ in range(case["nid"])] + [case["rules"]]}
+    S.CTX.scenario = {"script": [[] for _ in range(case["nid"])] + [case["rules"]], "reuse_commands": bool(case.get("reuse"))}
     S.CTX.trace = []
 
 
@@ -167,7 +167,8 @@ def run_interop_impl(case):
                 out.append("ret" + "".join(" | " + _conseq(c) for c in (cons or [])) + " ;" + "".join(" " + o for o in outs))
             # the caller keeps what every callback returned (a trace recorder does): a returned list is that callback's
             # requests for good, whatever the protocol does later
-            for idx, cons, then in kept:
+            # (not when the protocol re-fills its own command objects: the lists hold those very objects)
+            for idx, cons, then in ([] if case.get("reuse") else kept):
                 now = [_conseq(c) for c in cons]
                 if now != then:
                     out[idx] += " ; LATER " + " | ".join(now)
@@ -204,6 +205,23 @@ class _RecMob(_Rec):
         self.log.append(_mob(command))
 
 
+def _real_mobility(log):
+    """the python simulator's real mobility handler, recording what it is handed before acting on it"""
+    from gradysim.simulator.event import EventLoop
+    from gradysim.simulator.handler.mobility import MobilityHandler, MobilityConfiguration
+
+    class _RecMobReal(MobilityHandler):
+        now = 0.0
+        transmission_ranges = {}
+
+        def handle_command(self, command, node):
+            log.append(_mob(command))
+            super().handle_command(command, node)
+    h = _RecMobReal(MobilityConfiguration(update_rate=1.0))
+    h.inject(EventLoop())
+    return h
+
+
 def run_python_wrapper(case):
     """the requests the python wrapper forwards to its handlers, per callback"""
     _setup(case)
@@ -212,6 +230,9 @@ def run_python_wrapper(case):
     node = Node()
     node.id = case["nid"]
     node.position = (0.0, 0.0, 0.0)
+    if case.get("real_mobility"):
+        mob = _real_mobility(log)
+        mob.register_node(node)
     out = []
     import logging
     logging.disable(logging.CRITICAL)
